@@ -5,6 +5,8 @@
 pub mod support;
 pub mod h_scalars;
 pub mod h_derive;
+pub mod h_json;
+pub mod h_text;
 
 pub type Body = fn();
 /// harness name -> body (used by the native replay binary)
@@ -12,6 +14,8 @@ pub fn registry() -> Vec<(&'static str, Body)> {
     let mut v: Vec<(&'static str, Body)> = Vec::new();
     v.extend(h_scalars::registry());
     v.extend(h_derive::registry());
+    v.extend(h_json::registry());
+    v.extend(h_text::registry());
     v
 }
 
